@@ -35,11 +35,25 @@ fn too_old_ro(max: u32, g: u32) -> bool {
     g != max && !is_fwd(max, g) && max.wrapping_sub(g) > W
 }
 
+/// Any synchronised window state (P1 pre-state).
 pub(crate) fn any_state() -> RxCtrState {
     RxCtrState {
         max_ctr: any_u32(),
         ctr_bitmap: any_u16(),
+        synced: true,
     }
+}
+
+/// The state every `Session` starts in (see `Session::new` / `Session::init`); the session
+/// harness `c04_q_session_initial_window_state` pins this to what `Sessions::add` produces.
+pub(crate) fn initial_state() -> RxCtrState {
+    RxCtrState::unsynced()
+}
+pub(crate) fn state_eq(a: &RxCtrState, b: &RxCtrState) -> bool {
+    a.max_ctr == b.max_ctr && a.ctr_bitmap == b.ctr_bitmap && a.synced == b.synced
+}
+pub(crate) fn state_fields(a: &RxCtrState) -> (u32, u16, bool) {
+    (a.max_ctr, a.ctr_bitmap, a.synced)
 }
 
 // ------------------------------------------------------------------------------------------
@@ -191,7 +205,7 @@ fn c04_q_step_group_window() {
 #[cfg_attr(kani, kani::proof)]
 #[cfg_attr(not(kani), test)]
 fn c04_q_hist3_from_new() {
-    let mut s = RxCtrState::new(0);
+    let mut s = initial_state();
     let c1 = any_u32();
     let c2 = any_u32();
     let c3 = any_u32();
@@ -208,9 +222,7 @@ fn c04_q_hist3_from_new() {
         vassert!(c2 != c3, "ROLE:no-double-accept");
     }
     // strictly newer than everything accepted so far => accepted
-    if c1 > 0 {
-        vassert!(r1, "ROLE:newer-than-all-accepted");
-    }
+    vassert!(r1, "ROLE:first-message-accepted");
     if c2 > c1 {
         vassert!(r2, "ROLE:newer-than-all-accepted");
     }
@@ -235,14 +247,12 @@ fn c04_q_hist3_from_new() {
 #[cfg_attr(kani, kani::proof)]
 #[cfg_attr(not(kani), test)]
 fn c04_q_hist_first_message_overtaken() {
-    let mut s = RxCtrState::new(0);
+    let mut s = initial_state();
     let c1 = any_u32();
     let c2 = any_u32();
     let r1 = s.post_recv(c1, true, false);
     let r2 = s.post_recv(c2, true, false);
-    if c1 > 0 {
-        vassert!(r1, "ROLE:first-message-accepted");
-    }
+    vassert!(r1, "ROLE:first-message-accepted");
     if r1 && c2 < c1 && c1 - c2 <= W {
         if c1 > W {
             vcover!(true);
@@ -261,7 +271,7 @@ fn c04_q_hist_first_message_overtaken() {
 #[cfg_attr(kani, kani::proof)]
 #[cfg_attr(not(kani), test)]
 fn c04_t_hist4_from_new() {
-    let mut s = RxCtrState::new(0);
+    let mut s = initial_state();
     let c = [any_u32(), any_u32(), any_u32(), any_u32()];
     let mut r = [false; 4];
     let mut i = 0;
